@@ -45,15 +45,19 @@ def engine_opts(cfg):
     return o
 
 
-async def check_config(ctx, s, engine, req, faults, ref, cfg, sdl, cap, rng):
+async def check_config(ctx, s, engine, req, faults, ref, cfg, sdl, cap, rng, arg_faults=()):
     st = ctx.stats
     worlds = []
-    case = dict(req.describe(), sdl=sdl, config=list(cfg), faults={k: list(v) for k, v in faults.items()})
+    case = dict(req.describe(), sdl=sdl, config=list(cfg), faults={k: list(v) for k, v in faults.items()},
+                arg_faults=sorted(arg_faults))
+    if arg_faults:
+        st.inc("requests_with_failing_argument_hooks")
     root_t = s.roots()[req.op.kind]
 
     async def run_once(choose):
         def make(sched):
             w = world_mod.World(s, req.wseed, faults, sched)
+            w.arg_faults = set(arg_faults)
             worlds.append(w)
             root = w.root_object(root_t) if req.use_root else None
             return [engine.execute(req.text, operation_name=req.op_name, context={"world": w},
@@ -140,11 +144,18 @@ async def run_case(ctx, rng, index):
                 for key in rng.sample(sorted(w0.insts), min(len(w0.insts), rng.randint(1, 2))):
                     T, fname, v = w0.insts[key]
                     faults[key] = rng.choice(w0.applicable_faults(T, fname, v))
+            arg_faults = set()
+            if rng.random() < 0.3:
+                gated = [(f.name, a.name) for t in s.objects() for f in t.fields.values() for a in f.args
+                         if any(d[0] == "vtgate" for d in a.directives)]
+                if gated:
+                    arg_faults = set(rng.sample(gated, min(len(gated), rng.randint(1, 2))))
             w1, _ = X.make_worlds(s, req, faults)
+            w1.arg_faults = arg_faults
             ref = X.run_reference(s, req, w1)
             cfgs = CONFIGS if ctx.tier == "thorough" or r == 0 else rng.sample(CONFIGS, 4)
             for cfg in cfgs:
-                await check_config(ctx, s, bundles[cfg].engine, req, faults, ref, cfg, sdl, cap, rng)
+                await check_config(ctx, s, bundles[cfg].engine, req, faults, ref, cfg, sdl, cap, rng, arg_faults)
     finally:
         for b in bundles.values():
             b.dispose()
